@@ -67,6 +67,13 @@ fn main() {
             check_dyn(&f, *tf, loc);
         }
     }));
+    ctx.run_slice(Slice::new(format!("strict-trait-reading-Operations::iter[{} x {} functors]", spec.name(), tfs.len()), u.count(), |i, loc| {
+        let f = u.get_open(i);
+        for tf in &tfs {
+            loc.more_cases(1);
+            check_iter_functor(&f, *tf, loc);
+        }
+    }));
     let specid = if quick { Spec::open(3, 1, 2, 2, 2, 2, 2) } else { Spec::open(3, 2, 2, 2, 2, 2, 2) };
     let uid = specid.universe();
     let capid = if quick { 400_000 } else { 20_000_000 };
